@@ -136,7 +136,7 @@ func (k *checker) searchRange(ht *hostTables, minLen, maxLen, descLen int) {
 	list := make([]int, 0, maxLen)
 	dl := make([]descriptor.Descriptor, 0, maxLen)
 	h := ht.h
-	var nEval, nFound, nNot, nChoice, nDesc int64
+	var nEval, nFound, nNot, nChoice, nDesc, nFilt int64
 	var rec func()
 	rec = func() {
 		if l := len(list); l >= minLen {
@@ -177,6 +177,21 @@ func (k *checker) searchRange(ht *hostTables, minLen, maxLen, descLen int) {
 			if l <= descLen {
 				k.descLayer(ht, list, dl, got, false)
 				nDesc++
+				// the same search combined with an option that narrows the list first (a sort annotation no
+				// entry carries keeps every entry): the platform test of that narrowing step must not lose a
+				// runnable entry
+				hs := h
+				ds, errS := descriptor.DescriptorListSearch(dl, descriptor.MatchOpt{Platform: &hs, SortAnnotation: "org.example.verif.absent"})
+				gotS := -1
+				if errS == nil {
+					gotS = k.posOf(ds, "DescriptorListSearch+sort", ht, list)
+				} else if !notFound(errS) {
+					k.viol("e2e/search-filtered/unexpected-error", fmt.Sprintf("requested %s: DescriptorListSearch with a sort annotation: %v", pstr(h), errS), replayData{Kind: "host", Host: h})
+				}
+				if errS != nil || gotS >= 0 {
+					k.judgeSelection(ht, "search-filtered", list, gotS)
+					nFilt++
+				}
 			}
 			if !k.sampledList && k.rec.ShardI%3 == 1 && l == maxLen && l >= 2 && got > 0 && first >= 0 && list[0] != list[got] && ht.compat[list[0]%(n-1)] && list[0] < n-1 {
 				k.sampledList = true
@@ -212,7 +227,8 @@ func (k *checker) searchRange(ht *hostTables, minLen, maxLen, descLen int) {
 		nEval++
 	}
 	rec()
-	k.rec.Eval(nEval + 2*nDesc)
+	k.rec.Eval(nEval + 2*nDesc + nFilt)
+	k.count("e2e.search-filtered.lists", nFilt)
 	k.count("e2e.search.lists", nEval)
 	k.count("e2e.search.found", nFound)
 	k.count("e2e.search.not-found", nNot)
